@@ -231,6 +231,10 @@ func (hdr *TxHeader) ReadFrom(b []byte) error {
 		return fmt.Errorf("%w: invalid number of entries", ErrIllegalArguments)
 	}
 
+	if len(b) < i+sha256.Size+txIDSize+sha256.Size {
+		return ErrCorruptedData
+	}
+
 	// following records are currently common in versions 0 and 1
 	copy(hdr.Eh[:], b[i:])
 	i += sha256.Size
